@@ -68,7 +68,9 @@ MCLevelsChain == [l \in 0..2 |-> {"absent", "def", "override"}]
 \* "defover": a fixture and, further down the SAME file, its self-requesting override (two links of the chain in one file)
 MCSameChain == {"none", "def", "override", "defover"}
 \* {"cs"}: a conftest in a SIBLING directory (its name a string prefix of the chain directory's) defines the name too
-MCExtraChain == {{}, {"pl"}, {"tp"}, {"pl", "tp"}, {"plo"}, {"plo", "tp"}, {"cs"}, {"cs", "tp"}}
+\* {"tpo", "tp2"}: an installed plugin OVERRIDES the name and requests it itself (`def n(n)` inside site-packages); the
+\* only outward provider is the other installed plugin
+MCExtraChain == {{}, {"pl"}, {"tp"}, {"pl", "tp"}, {"plo"}, {"plo", "tp"}, {"cs"}, {"cs", "tp"}, {"tpo", "tp2"}}
 MCLevelsSmall == [l \in 0..2 |-> CASE l = 0 -> {"absent", "def", "star"}
                                    [] l = 1 -> {"absent", "def", "override", "imp", "impconf", "starconf"}
                                    \* star / imp at the innermost level: with the conftest itself as the using file the
@@ -159,7 +161,7 @@ WsOf(c) ==
           [] f = "pl" -> IF "pl" \in c.ex THEN Module(<<DefN>>)
                          ELSE IF "plo" \in c.ex THEN Module(<<OverN>>) ELSE Absent
           [] f \in {"t0", "t1"} -> IF ExtraUsers THEN Module(<<Test("test_t", <<"n">>)>>) ELSE Absent
-          [] f = "tp" -> IF "tp" \in c.ex THEN Module(<<DefN>>) ELSE Absent
+          [] f = "tp" -> IF "tp" \in c.ex THEN Module(<<DefN>>) ELSE IF "tpo" \in c.ex THEN Module(<<OverN>>) ELSE Absent
           [] f = "tp2" -> IF "tp2" \in c.ex THEN Module(<<PlainDef("x", <<>>), DefN>>) ELSE Absent
           [] f = "tpi" -> IF "tpi" \in c.ex THEN Module(<<PlainDef("w", <<"n">>)>>) ELSE Absent]
 
@@ -181,6 +183,9 @@ ShapeSet(ck, sks, exs, uks, ufs) ==
         /\ (c.uf # "u" => c.sk = "none")
         /\ (c.uf = "c2" => c.ck[3] # "absent")
         /\ (c.ck[2] \in {"impconf", "starconf"} => "cs" \in c.ex)
+        \* the installed override is judged where its outward provider is unambiguous: no project definition of the name
+        \* (a plugin inside the workspace's own virtualenv lies BELOW the project's conftest files on disk)
+        /\ ("tpo" \in c.ex => (\A l \in 1..3 : c.ck[l] = "absent") /\ c.sk = "none")
         /\ Cardinality(Definers(WsOf(c))) <= MaxDefiners }
 
 \* A: the full layout product under the plain test-parameter usage
